@@ -102,7 +102,7 @@ func c17Responder(name string, sent *sync.Map) func(w http.ResponseWriter, r *ht
 		}
 		rng := rand.New(rand.NewSource(seed))
 		rnd := func(n int) []byte { b := make([]byte, n); _, _ = rng.Read(b); return b }
-		noCT, stream, abort := false, false, false
+		noCT, stream, abort, slow := false, false, false, false
 		var interim []c17Interim
 		switch rc {
 		case 1:
@@ -175,6 +175,10 @@ func c17Responder(name string, sent *sync.Map) func(w http.ResponseWriter, r *ht
 			}
 			out = bytes.Repeat([]byte("partial-"+id+"\n"), 60)
 			abort = true
+		case c17RespSlow: // starts at once, then streams for 1.8 s with every gap (300 ms) far below any configured timeout
+			h["Content-Type"] = []string{"application/octet-stream"}
+			out = bytes.Repeat([]byte("slow-"+id+"\n"), 6*40)
+			slow = true
 		case c17RespRefuse:
 			code = 403
 			h["Content-Type"] = []string{"text/plain"}
@@ -247,6 +251,20 @@ func c17Responder(name string, sent *sync.Map) func(w http.ResponseWriter, r *ht
 				}
 			}
 			panic(http.ErrAbortHandler) // net/http drops the connection: no terminating chunk, no remaining bytes
+		}
+		if slow {
+			f, _ := w.(http.Flusher)
+			n := len(out) / 6
+			for k := 0; k < 6; k++ {
+				_, _ = w.Write(out[k*n : (k+1)*n])
+				if f != nil {
+					f.Flush()
+				}
+				if k < 5 {
+					time.Sleep(300 * time.Millisecond)
+				}
+			}
+			return
 		}
 		if stream {
 			f, _ := w.(http.Flusher)
@@ -648,6 +666,12 @@ func (j *c17Judge) judgeResponse(c *c17Case, resp *vfResp, x *c17WireX) []c17Fin
 	if len(s.Interim) > 0 {
 		j.run.Count("responses_with_informational_prelude", 1)
 	}
+	if c.Resp == c17RespSlow {
+		j.run.Count("slow_streamed_responses_under_short_timeout", 1)
+	}
+	if c.SlowUp {
+		j.run.Count("slow_uploads_under_short_timeout", 1)
+	}
 	if fmt.Sprint(gotInterim) != fmt.Sprint(s.Interim) {
 		add("c17:response-informational-changed", "upstream sent the informational responses %v before its final status, client received %v", s.Interim, gotInterim)
 	}
@@ -721,7 +745,7 @@ func c17FilePathFor(u *c17Up, c *c17Case) (string, bool) {
 // c17Wire: like the rig's wire driver (fresh connection, raw bytes, "Connection: close"), but it also returns the
 // informational (1xx) responses that precede the final one, whether the body ended cleanly, and — for WebSocket
 // upgrade requests, which are sent without "Connection: close" — the dialogue held through the tunnel after a 101.
-func c17Wire(p *vfProxy, r *vfReq, ws bool, id string) (*vfResp, *c17WireX) {
+func c17Wire(p *vfProxy, r *vfReq, ws bool, id string, slowUpload bool) (*vfResp, *c17WireX) {
 	x := &c17WireX{}
 	addr := strings.TrimPrefix(p.Server().URL, "http://")
 	c, err := net.DialTimeout("tcp", addr, 5*time.Second)
@@ -734,8 +758,26 @@ func c17Wire(p *vfProxy, r *vfReq, ws bool, id string) (*vfResp, *c17WireX) {
 	if !ws {
 		rr.Headers = append(rr.Headers, [2]string{"Connection", "close"})
 	}
-	if _, err := c.Write(rr.Bytes()); err != nil {
-		return &vfResp{Err: "write: " + err.Error(), Header: http.Header{}}, x
+	raw := rr.Bytes()
+	if k := bytes.Index(raw, []byte("\r\n\r\n")); slowUpload && k >= 0 && len(raw) > k+4+6 {
+		// head at once, then the (chunk-encoded) body in 6 slices 300 ms apart: 1.5 s of steady progress
+		head, rest := raw[:k+4], raw[k+4:]
+		_, err = c.Write(head)
+		n := len(rest) / 6
+		for i := 0; i < 6 && err == nil; i++ {
+			time.Sleep(300 * time.Millisecond)
+			e := (i + 1) * n
+			if i == 5 {
+				e = len(rest)
+			}
+			_, err = c.Write(rest[i*n : e])
+		}
+	} else {
+		_, err = c.Write(raw)
+	}
+	if err != nil {
+		// the peer may already have answered and closed (e.g. an error page): keep reading, the response tells
+		x.TunnelErr = "write: " + err.Error()
 	}
 	br := bufio.NewReader(c)
 	for {
@@ -915,7 +957,7 @@ func (j *c17Judge) judgeUnder(s *c17Set, d c17Decision, c *c17Case, req *vfReq, 
 
 func (j *c17Judge) judge(s *c17Set, c *c17Case) {
 	req, body := c17Request(c, s.Cookie)
-	resp, interim := c17Wire(s.Proxy, req, c.WS, c.ID)
+	resp, interim := c17Wire(s.Proxy, req, c.WS, c.ID, c.SlowUp)
 	run := j.run
 	if resp.Err != "" && strings.HasPrefix(resp.Err, "read:") && !strings.Contains(resp.Err, "timeout") {
 		if v, ok := j.sent.Load(c.ID); ok && v.(*c17Sent).Aborted {
@@ -1058,7 +1100,7 @@ func TestVerif_C17(t *testing.T) {
 	w := vfNewWorld(t)
 	defer w.Close()
 	sent := &sync.Map{}
-	for k := 0; k < 14; k++ {
+	for k := 0; k < 16; k++ {
 		name := fmt.Sprintf("u%d", k)
 		w.Upstream(name).SetRespond(c17Responder(name, sent))
 	}
@@ -1079,7 +1121,34 @@ func TestVerif_C17(t *testing.T) {
 		}
 	}
 	perSet := run.Env.Pick(400, 14000)
+	// the slow-exchange cases (≈2 s each) of the short-timeout sets run side by side in one batch, on their own backends
+	{
+		type job struct {
+			s *c17Set
+			c *c17Case
+		}
+		var jobs []job
+		for si, s := range sets {
+			if s.Tiny {
+				cs := c17CoreCases(s, run.Env.Thorough())
+				c17Finalize(cs, fmt.Sprintf("c17-%d-%d", run.Env.Seed, si), s)
+				for _, c := range cs {
+					jobs = append(jobs, job{s, c})
+				}
+			}
+		}
+		vfParallel(len(jobs), len(jobs), func(i int) { j.judge(jobs[i].s, jobs[i].c) })
+		for _, u := range w.Ups {
+			u.Reset()
+		}
+		sent.Range(func(k, _ interface{}) bool { sent.Delete(k); return true })
+	}
 	for si, s := range sets {
+		if s.Tiny {
+			run.Count("sets", 1)
+			s.Proxy.Server().Close()
+			continue
+		}
 		cases := c17CoreCases(s, run.Env.Thorough())
 		r := rand.New(rand.NewSource(run.Env.Seed*1000003 + int64(si)*7919 + 17))
 		n := perSet
@@ -1106,7 +1175,7 @@ func TestVerif_C17(t *testing.T) {
 		run.Count("sets", 1)
 		s.Proxy.Server().Close() // waits for the connection goroutines of this instance
 	}
-	for _, must := range []string{"websocket_tunnels", "upstream_aborts_mid_body", "upstream_aborts_before_headers", "responses_with_informational_prelude", "decision_http", "decision_http+rewrite", "decision_static", "decision_file", "decision_file+rewrite", "decision_redirect-clean", "decision_redirect-slash", "decision_notfound"} {
+	for _, must := range []string{"slow_streamed_responses_under_short_timeout", "slow_uploads_under_short_timeout", "websocket_tunnels", "upstream_aborts_mid_body", "upstream_aborts_before_headers", "responses_with_informational_prelude", "decision_http", "decision_http+rewrite", "decision_static", "decision_file", "decision_file+rewrite", "decision_redirect-clean", "decision_redirect-slash", "decision_notfound"} {
 		if run.Counter(must) == 0 {
 			run.Inconclusive("no case exercised " + must)
 			fmt.Printf("INCONCLUSIVE property=C17 reason=no case exercised %s\n", must)
